@@ -172,3 +172,69 @@ func rcvMain() {
 		hx.Out.Flush()
 	})
 }
+
+// addrConn hands out datagrams from scripted sender addresses.
+type addrConn struct {
+	fakeConn
+	addrs []net.Addr
+}
+
+func (c *addrConn) ReadFrom(p []byte) (int, net.Addr, error) {
+	c.mu.Lock()
+	defer c.mu.Unlock()
+	if c.closed || c.reads >= len(c.queue) {
+		for !c.closed {
+			c.cond.Wait()
+		}
+		return 0, nil, errors.New("use of closed network connection")
+	}
+	n := copy(p, c.queue[c.reads])
+	a := c.addrs[c.reads]
+	c.reads++
+	return n, a, nil
+}
+
+// senderProbe: datagrams from several IPv4 and IPv6 senders through one reader of the real receiver; every datagram
+// must be attributed to its own sender ("" = fine).
+func senderProbe() string {
+	senders := []string{"10.0.0.1", "2001:db8::1", "2001:db8::2", "10.0.0.2", "fd00::17", "2001:db8::1", "10.0.0.1", "::1"}
+	conn := &addrConn{}
+	conn.cond = sync.NewCond(&conn.mu)
+	for i, s := range senders {
+		conn.queue = append(conn.queue, []byte(fmt.Sprintf("probe%d:1|c", i)))
+		conn.addrs = append(conn.addrs, &net.UDPAddr{IP: net.ParseIP(s), Port: 4000 + i})
+	}
+	out := make(chan []*statsd.Datagram)
+	rcv := statsd.NewDatagramReceiver(out, func() (net.PacketConn, error) { return conn, nil }, 1, 3)
+	ctx, cancel := context.WithCancel(context.Background())
+	defer cancel()
+	defer conn.Close()
+	go func() {
+		defer func() { _ = recover() }()
+		rcv.Receive(ctx, conn)
+	}()
+	got := []string{}
+	timeout := time.After(10 * time.Second)
+	for len(got) < len(senders) {
+		select {
+		case b := <-out:
+			for _, d := range b {
+				if d == nil {
+					return "nil datagram in a batch"
+				}
+				got = append(got, string(d.IP))
+				if d.DoneFunc != nil {
+					d.DoneFunc()
+				}
+			}
+		case <-timeout:
+			return fmt.Sprintf("only %d of %d datagrams came out of the receiver", len(got), len(senders))
+		}
+	}
+	for i, s := range senders {
+		if got[i] != net.ParseIP(s).String() {
+			return fmt.Sprintf("datagram %d from %s attributed to %s", i, s, got[i])
+		}
+	}
+	return ""
+}
